@@ -135,7 +135,13 @@ def load_linter_config(
         config = load_linter_config(context, "srp", SRPConfig)
     """
     metadata = get_metadata(context)
-    config_dict = metadata.get(config_key, {})
+    config_dict = metadata.get(config_key)
+    if config_dict is None:
+        # Config loaders normalise section names to underscores; accept either spelling
+        alternate_key = (
+            config_key.replace("-", "_") if "-" in config_key else config_key.replace("_", "-")
+        )
+        config_dict = metadata.get(alternate_key, {})
 
     if not isinstance(config_dict, dict):
         return config_class()
